@@ -434,6 +434,7 @@ pub fn nontrivial(prop: &str, c: &BTreeMap<String, u64>) -> bool {
         "C04" => g("overlapping_sessions") > 0 && g("reads_after_later_commit") > 0,
         "C07" => g("failed_statements") > 0,
         "C09" => g("reopens") > 0 && g("state_checks") > 0,
+        "C06" => g("plan_families_with_different_physical_plans") > 0,
         "C12" => g("configurations_that_evicted") > 0,
         "C13" => g("vacuums") > 0 && g("state_checks") > 0,
         "C15" => g("ddl_in_session") > 0,
